@@ -111,6 +111,10 @@ def Mag.isZero : Mag → Bool
   | .exact q => q == 0
   | .inexact _ => false
 
+def Mag.isNeg : Mag → Bool
+  | .exact q => decide (q < 0)
+  | .inexact n => n
+
 def Mag.inv : Mag → Mag
   | .exact q => .exact q⁻¹
   | .inexact n => .inexact n
@@ -385,7 +389,8 @@ def evalTree (cfg : Cfg) : Tree → Res Val
     Val.div cfg.thr x y
   | .pow a e => do
     let x ← evalTree cfg a
-    Val.pow cfg.thr x e
+    -- repaired (FU1): `if float(base) < 0 and power != int(power): raise UnitsParseError`
+    if x.mag.isNeg && !isInt e then perr else Val.pow cfg.thr x e
 
 /-- `eval_expr` on a token list -/
 def evalTokens (cfg : Cfg) (ts : List Tok) : Res Val := do
